@@ -328,6 +328,23 @@ def dns_query_bytes(q, truncate=0):
     b += tail
     return b[:len(b) - truncate] if truncate else b
 
+def g_c14_label_zero(repo):
+    """C14 (defect repaired in eb22b78, kept as an obligation): names are label sequences, so an IN/A query one of whose
+    labels holds a zero byte (here: one label of length 1 holding 00) is answered like any other.  Before the repair the
+    name dissector ended a name at its first zero byte and this query got no answer."""
+    q = (0x1234, 0, 1, [(b'\x01\x00\x00', 1, 1)], b'')
+    payload = dns_query_bytes(q)
+    want = dns_expected(q, '10.0.0.1')
+    d = R.Driver(repo)
+    try:
+        d.cfg(mac=R.MAC)
+        r = d.frame(R.eth(R.MAC, R.PEER, 0x0800, R.ip4('10.0.0.77', '10.0.0.1', 17, R.udp(40000, 53, payload))))
+    finally:
+        d.close()
+    got = r[1][42:] if r[0] == 'reply' else None
+    return got == want, {'obligation': 'ground/C14/label-with-zero-byte', 'query_hex': payload.hex(), 'expected_hex': want.hex(),
+                         'outcome': r[0], 'got_hex': got.hex() if got else None}
+
 def g_c14_dns(repo, n, seed):
     """BOUNDED stand-in for the end-to-end clauses of C14 that the contracts do not reach yet (every IN/A-only query IS
     answered; question section echoed byte for byte; one A record per question; nothing for non-IN/A or truncated
@@ -337,7 +354,10 @@ def g_c14_dns(repo, n, seed):
     rnd = random.Random(1000 + seed)
     def name():
         if rnd.random() < 0.1: return b'\0'
-        labs = [bytes(rnd.choice(b'abcdefghijklmnopqrstuvwxyz0123456789-') for _ in range(rnd.randint(1, 12))) for _ in range(rnd.randint(1, 4))]
+        if rnd.random() < 0.3:   # arbitrary octets inside labels, zero included (names are label sequences, RFC 1035 3.1)
+            labs = [bytes(rnd.choice([0, 0, 1, 46, 255, rnd.randint(0, 255)]) for _ in range(rnd.randint(1, 12))) for _ in range(rnd.randint(1, 4))]
+        else:
+            labs = [bytes(rnd.choice(b'abcdefghijklmnopqrstuvwxyz0123456789-') for _ in range(rnd.randint(1, 12))) for _ in range(rnd.randint(1, 4))]
         return b''.join(bytes([len(l)]) + l for l in labs) + b'\0'
     out = []
     d = R.Driver(repo)
@@ -664,6 +684,8 @@ def run(pid, tier, repo, build, seed):
             for ok, info in rs:
                 add(ok, info, info['obligation'], 'BOUNDED: the reflection chain of this sample dies out after at most two replies: %s' % info.get('replies_in_chain'), bounded=True)
         if pid == 'C14':
+            ok_, info_ = g_c14_label_zero(repo)
+            add(ok_, info_, 'ground/C14/label-with-zero-byte', 'an IN/A query whose label holds a zero byte (names are label sequences: RFC 1035 3.1) is answered like any other: %s' % info_)
             n_ = 400 if tier == 'thorough' else 80
             rs = g_c14_dns(repo, n_, seed)
             groups = {}
